@@ -29,6 +29,9 @@ def setup(J):
                 for kind in (("func",) if q else ("func", "cmd")):
                     jobs.append(J.with_delay_fallback(J.wf("C16", g, 1, 1, 2, kind, oracles=["nohang", "c16-unwired"], tier=tier, events_dep=False, omit_edge=e, id=f"C16-unwired-{g}-e{e}-{kind}")))
         jobs.append(J.wf("C16", "g8", 1, 1, 2, "func", oracles=["nohang", "c16-unwired"], tier=tier, events_dep=False, omit_fromstr="p.a", id="C16-unfed-g8-p.a"))
+        # ... and a connection that was made and then taken apart again through the public Disconnect of both ports
+        for g, e in (("g3", 0), ("g3", 1), ("g4", 2), ("g7", 1)):
+            jobs.append(J.with_delay_fallback(J.wf("C16", g, 1, 1, 2, "func", oracles=["nohang", "c16-unwired"], tier=tier, events_dep=False, omit_edge=e, args={"omit_how": "disconnect"}, id=f"C16-unwired-{g}-e{e}-func-connected-then-disconnected")))
         # (b) out-ports nobody consumes are drained automatically
         for g, drop in (("g7", "r"), ("g4", "q"), ("g6b", "j"), ("g3", "q")):
             jobs.append(J.with_delay_fallback(J.wf("C16", g, 2, 1, 2, "func", oracles=["nohang", "clean", "c04", "c05"], tier=tier, events_dep=False, drop_proc=drop, id=f"C16-dangling-{g}-minus-{drop}")))
